@@ -58,10 +58,10 @@ Fixpoint im_check (cfg : imcfg) (s : imstate) (steps : list imstep) : bool :=
   | IS p ok other post0 :: r =>
       let rs := (ok, dec_other other) in
       let post := dec_table post0 in
-      match find (fun out : imstate * resp * list key =>
-                    resp_eqb (snd (fst out)) rs && table_eqb (im_tbl (fst (fst out))) post)
+      match find (fun out : imstate * resp =>
+                    resp_eqb (snd out) rs && table_eqb (im_tbl (fst out)) post)
                  (im_step cfg s p) with
-      | Some out => im_check cfg (fst (fst out)) r
+      | Some out => im_check cfg (fst out) r
       | None => false
       end
   end.
